@@ -45,7 +45,7 @@ var c17Name = &dtpb.HumanName{Family: &dtpb.String{Value: "Env"}}
 var c17Coll = system.Collection{system.Integer(1), system.String("x"), c17Name}
 
 // evaluate-option kinds
-var c17EvalKinds = []string{"sys", "elem", "coll", "dup", "predef-context", "predef-ucum", "unsupported", "nested-unsupported", "nested-collection", "unsupported-first", "nil", "time"}
+var c17EvalKinds = []string{"sys", "elem", "coll", "dup", "predef-context", "predef-ucum", "unsupported", "nested-unsupported", "nested-collection", "unsupported-first", "nil", "time", "empty-collection", "nil-collection"}
 
 func c17EvalOpt(kind string) fhirpath.EvaluateOption {
 	switch kind {
@@ -73,6 +73,12 @@ func c17EvalOpt(kind string) fhirpath.EvaluateOption {
 		return evalopts.EnvVariable("nc", system.Collection{system.Integer(1), system.Collection{system.String("ok")}})
 	case "nil":
 		return evalopts.EnvVariable("z", nil)
+	case "empty-collection":
+		return evalopts.EnvVariable("ec", system.Collection{})
+	case "nil-collection":
+		// a collection nobody appended to: still a collection, with no items
+		var none system.Collection
+		return evalopts.EnvVariable("nilc", none)
 	case "time":
 		return evalopts.OverrideTime(time.Date(2020, 1, 2, 3, 4, 5, 0, time.UTC))
 	}
@@ -136,7 +142,7 @@ func c17EvalList(env *core.Env, kinds []string) {
 	for _, k := range kinds {
 		count[k]++
 	}
-	for _, k := range []string{"elem", "coll"} {
+	for _, k := range []string{"elem", "coll", "empty-collection", "nil-collection"} {
 		if count[k] > 1 {
 			expExisting = true
 		}
@@ -210,6 +216,16 @@ func c17EvalList(env *core.Env, kinds []string) {
 		check("%context.select(%a)", system.Collection{system.Integer(5)}, "select-criterion")
 		check("%context.where(%a = 5).count()", system.Collection{system.Integer(1)}, "where-criterion")
 		env.Cover("in-criteria")
+	}
+	for k, v := range map[string]string{"empty-collection": "%ec", "nil-collection": "%nilc"} {
+		if has[k] && count[k] == 1 {
+			env.Cover("variable-bound-to-no-items")
+			check(v, system.Collection{}, k)
+			check(v+".count()", system.Collection{system.Integer(0)}, k)
+			check("iif("+v+".empty(), 1, 2)", system.Collection{system.Integer(1)}, k)
+			check("%context.select("+v+").count()", system.Collection{system.Integer(0)}, k)
+			check("%context.where("+v+".exists()).count()", system.Collection{system.Integer(0)}, k)
+		}
 	}
 	if has["elem"] {
 		check("%b", system.Collection{c17Name}, "root")
